@@ -173,6 +173,7 @@ class Session:
                 if 0 <= a < self.n and self.script["learning"][a] and self.in_space(a, send, recv):
                     if ad[self.aid(a)] not in w.agents[self.aid(a)].action_space:
                         self.mem_fail.append(("generated in-space action not in agent.action_space", len(self.ops)))
+            self._failed_attempt(ad)
             st, val = self._try(lambda: w.step(ad))
         else:
             a = op[1]
@@ -195,6 +196,37 @@ class Session:
             except Exception:  # noqa: BLE001
                 pass
         return st, val
+
+    def _failed_attempt(self, ad):
+        """round 6: a step that RAISES part-way, before the wrapped simulation is advanced, followed at once by the
+        corrected step.  The attempt hands in the same action dictionary with one malformed item at the END - a plain
+        number as the action of an agent that has a message pending (so that the receive loop itself trips over it; an
+        agent without one is skipped by the short-circuit and the exception would come after the buffer was cleared).
+        The unchanged wrapper has read, not written, its message buffer by then, and the corrected step recomputes every
+        row the attempt touched: the attempt must be invisible.  One step in four, when such an agent exists."""
+        self._attempts = getattr(self, "_attempts", 0) + 1
+        if self._attempts % 4 != 1:
+            return
+        mb = getattr(self.w, "message_buffer", None)
+        if not isinstance(mb, dict):
+            return
+        pending = [k for k in self.sim.ids if isinstance(mb.get(k), dict) and any(bool(v) for v in mb[k].values())]
+        if not pending:
+            return
+        x = pending[self._attempts // 4 % len(pending)]
+        bad = {k: v for k, v in ad.items() if k != x}
+        bad[x] = 7                                           # last in the dictionary
+        lb = len(self.sim.step_log)
+        try:
+            self.w.step(bad)
+        except mgr.Hang:
+            raise
+        except Exception:  # noqa: BLE001
+            pass
+        if len(self.sim.step_log) > lb:
+            # the malformed dictionary reached the simulation: not the situation this is about; let the trace show it
+            return
+        self.failed_attempts = getattr(self, "failed_attempts", 0) + 1
 
     def check_obs(self, a, val):
         try:
